@@ -118,6 +118,8 @@ type Core struct {
 	// ZeroErr: injected faults are reported with an error of a field-less value type (a sentinel like
 	// `type errNotLeader struct{}`), whose value equals its zero value
 	ZeroErr bool
+	// TypedNilErr: a failing Close returns a typed nil pointer as its error
+	TypedNilErr bool
 	// CloseFn, when set, runs between close-begin and close-end (gates, delays).
 	CloseFn func(who Node)
 }
@@ -149,10 +151,20 @@ func (k *Core) closeEv(who Node) error {
 	}
 	k.Log.Add("close-end", name)
 	if k.Fails["close"] {
+		if k.TypedNilErr {
+			var e *fieldErr // a typed nil pointer returned as error: non-nil as an interface value
+			return e
+		}
 		return errors.New("injected fault: close of " + name)
 	}
 	return nil
 }
+
+// fieldErr's Error method reads a field: calling it on a nil receiver panics (fmt tolerates that, a
+// direct call does not).
+type fieldErr struct{ msg string }
+
+func (e *fieldErr) Error() string { return e.msg }
 
 type zeroErr struct{}
 
